@@ -369,10 +369,13 @@ class BodyGen:
                 def item():
                     v = r.choice(vals).src if vals and r.random() < 0.7 else self.eg.typed_const(t.kind, t.w)
                     return f"({r.choice(conds).src}, {v})"
+                els = [('sig', t.src, self.eg.expr(t.kind, t.w, 1))] if r.random() < 0.6 else None
+                if els is not None and r.random() < 0.12:
+                    n = 0                     # empty iterable: only the else block runs
+                    self.features.add('for-empty-else')
                 items = ', '.join(item() for _ in range(n))
                 lv_c, lv_v = self.env.fresh('fc'), self.env.fresh('fv')
                 body = [('sig', t.src, lv_v)]
-                els = [('sig', t.src, self.eg.expr(t.kind, t.w, 1))] if r.random() < 0.6 else None
                 out.append(('forbreak', f"[{items}]", f"{lv_c}, {lv_v}", lv_c, body, els, False))
                 self.features.add('for-break' + ('-else' if els else ''))
                 size -= 2
@@ -424,6 +427,8 @@ class BodyGen:
         out = []
         while size > 0:
             forms = ['simple'] * 3 + ['await'] * 3 + ['awaittrue', 'if', 'if', 'while', 'while']
+            if r.random() < 0.25:
+                forms += ['comment', 'whilefalse']
             if in_loop:
                 forms += ['break', 'continue'] if ticked else ['break']
             if self.allow.get('subs', True) and not in_sub and depth > 0:
@@ -440,6 +445,17 @@ class BodyGen:
                 out.append(('await', self.eg.cond(1)))
                 self.features.add('await')
                 ticked = True
+                size -= 1
+            elif form == 'comment':
+                out.append(('comment', f"note {r.randrange(100)}"))
+                self.features.add('comment')
+            elif form == 'whilefalse':
+                # a loop whose condition is false at compile time (literally, or after folding a constant operand):
+                # its body never runs, the loop entry still costs its clock unless it is the first action
+                rc = self.eg.cond(0)
+                cond = r.choice(['False', '(Unsigned[3](3) <= 0)', f"((Unsigned[3](3) <= 0) and {rc})", f"({rc} and (Unsigned[2](1) > 2))"])
+                out.append(('while', cond, self.simple()))
+                self.features.add('while-constant-false')
                 size -= 1
             elif form == 'awaittrue':
                 out.append(('awaittrue',))
